@@ -374,6 +374,8 @@ pub enum OpB {
     Dispose { pick: u8, how: u8 },
     /// accept_all of the m oldest undisposed deliveries, skipping `skip` in the middle
     AcceptAll { m: u8, skip: bool },
+    /// (mode second) the peer settles the k-th oldest delivery whose outcome it has been told
+    PeerSettle { pick: u8 },
 }
 
 #[derive(Clone, Debug, Serialize, Deserialize, Hash)]
@@ -384,6 +386,12 @@ pub struct CaseB {
     pub tokio_seed: u64,
     pub choices: Vec<u8>,
     pub pipe: PipeCfg,
+    /// transfer frames per delivery are 1 + frames % 3; continuation frames omit delivery-id and tag
+    #[serde(default)]
+    pub frames: u8,
+    /// finally detach the link and resume it: the resuming attach shows what the receiver still holds unsettled
+    #[serde(default)]
+    pub resume_at_end: bool,
 }
 
 pub fn case_b_strategy() -> BoxedStrategy<CaseB> {
@@ -391,15 +399,18 @@ pub fn case_b_strategy() -> BoxedStrategy<CaseB> {
         4 => (1u8..5).prop_map(OpB::Deliver),
         4 => (0u8..6, 0u8..4).prop_map(|(pick, how)| OpB::Dispose { pick, how }),
         2 => (2u8..6, any::<bool>()).prop_map(|(m, skip)| OpB::AcceptAll { m, skip }),
+        2 => (0u8..6).prop_map(|pick| OpB::PeerSettle { pick }),
     ];
-    (any::<bool>(), crate::duo::next_id(), vec(op, 1..30), any::<u64>(), gen::choices_bytes(), simnet::strat::pipe_cfg())
-        .prop_map(|(rcv_second, p0, ops, tokio_seed, choices, pipe)| CaseB { rcv_second, p0, ops, tokio_seed, choices, pipe: PipeCfg { cap: 1 << 22, ..pipe } })
+    (any::<bool>(), crate::duo::next_id(), vec(op, 1..30), any::<u64>(), gen::choices_bytes(), simnet::strat::pipe_cfg(), prop_oneof![2 => Just(0u8), 1 => Just(1u8), 1 => Just(2u8)], any::<bool>())
+        .prop_map(|(rcv_second, p0, ops, tokio_seed, choices, pipe, frames, resume_at_end)| CaseB { rcv_second, p0, ops, tokio_seed, choices, pipe: PipeCfg { cap: 1 << 22, ..pipe }, frames, resume_at_end })
         .boxed()
 }
 
 enum CmdB {
     Recv(oneshot::Sender<Result<u32, String>>),
     Dispose(Vec<u32>, u8, bool, oneshot::Sender<Result<(), String>>),
+    /// detach (non-closing) and resume; reports errors of the detach
+    DetachResume(oneshot::Sender<Result<(), String>>),
 }
 
 async fn receiver_app(mut r: Receiver, mut rx: mpsc::Receiver<CmdB>) {
@@ -433,6 +444,19 @@ async fn receiver_app(mut r: Receiver, mut rx: mpsc::Receiver<CmdB>) {
                 held.retain(|d| !ids.contains(d.delivery_id()));
                 let _ = done.send(res.map_err(|e| format!("disposition failed: {e:?}")));
             }
+            CmdB::DetachResume(done) => {
+                match r.detach().await {
+                    Ok(d) => {
+                        let _ = done.send(Ok(()));
+                        // the peer inspects the resuming attach and does not complete the exchange
+                        let _ = tokio::time::timeout(std::time::Duration::from_secs(5), d.resume()).await;
+                    }
+                    Err((_d, e)) => {
+                        let _ = done.send(Err(format!("detach failed: {e:?}")));
+                    }
+                }
+                break;
+            }
         }
     }
     std::future::pending::<()>().await;
@@ -463,6 +487,7 @@ pub async fn run_b(c: &CaseB) -> Result<InfoB, String> {
     let mut expected: BTreeMap<u32, u8> = BTreeMap::new(); // id -> state kind expected in a disposition
     let mut covered: BTreeSet<u32> = BTreeSet::new();
     let mut info = InfoB { batch: false, ooo: false };
+    let mut peer_settled: BTreeSet<u32> = BTreeSet::new();
     let _ = peer.new_frames().await;
 
     macro_rules! step {
@@ -523,8 +548,20 @@ pub async fn run_b(c: &CaseB) -> Result<InfoB, String> {
             OpB::Deliver(n) => {
                 for _ in 0..*n {
                     let tag = next_id.to_be_bytes();
-                    let body = Peer::transfer_body(ph, Some(next_id), Some(&tag), Some(0), Some(false), false, None, false);
-                    peer.send_frame(my_ch, &body, &[0x00, 0x53, 0x77, 0x52, 7]).await?;
+                    let payload: [u8; 8] = [0x00, 0x53, 0x77, 0xa0, 3, b'a', b'b', b'c'];
+                    let nframes = 1 + (c.frames % 3) as usize;
+                    let cuts: Vec<usize> = match nframes {
+                        1 => vec![8],
+                        2 => vec![3, 8],
+                        _ => vec![3, 5, 8],
+                    };
+                    let mut from = 0;
+                    for (fi, to) in cuts.iter().enumerate() {
+                        let last = fi + 1 == cuts.len();
+                        let body = if fi == 0 { Peer::transfer_body(ph, Some(next_id), Some(&tag), Some(0), Some(false), !last, None, false) } else { Peer::transfer_body(ph, None, None, None, None, !last, None, false) };
+                        peer.send_frame(my_ch, &body, &payload[from..*to]).await?;
+                        from = *to;
+                    }
                     let (dtx, drx) = oneshot::channel();
                     tx.send(CmdB::Recv(dtx)).await.map_err(|_| "app gone".to_string())?;
                     let id = match tokio::time::timeout(std::time::Duration::from_secs(10), drx).await {
@@ -554,6 +591,23 @@ pub async fn run_b(c: &CaseB) -> Result<InfoB, String> {
                 drx.await.map_err(|_| "app dropped".to_string())??;
                 step!(what);
             }
+            OpB::PeerSettle { pick } => {
+                // ids whose (unsettled) outcome the peer has seen and not yet settled
+                let cand: Vec<u32> = covered.iter().copied().filter(|id| !peer_settled.contains(id)).collect();
+                if !c.rcv_second || cand.is_empty() {
+                    continue;
+                }
+                let id = cand[(*pick as usize) % cand.len()];
+                let state = match expected.get(&id) {
+                    Some(0) => Peer::accepted(),
+                    Some(1) => Peer::rejected("x"),
+                    Some(2) => Peer::released(),
+                    _ => Peer::modified(true, false),
+                };
+                peer.send_frame(my_ch, &Peer::disposition_body(false, id, None, true, Some(state)), &[]).await?;
+                peer_settled.insert(id);
+                step!(what);
+            }
             OpB::AcceptAll { m, skip } => {
                 let m = (*m as usize).min(undisposed.len());
                 if m == 0 {
@@ -574,6 +628,40 @@ pub async fn run_b(c: &CaseB) -> Result<InfoB, String> {
                 step!(what);
             }
         }
+    }
+    if c.resume_at_end {
+        // settled deliveries: mode first — everything disposed of; mode second — what the peer settled
+        let settled: Vec<u32> = if c.rcv_second { peer_settled.iter().copied().collect() } else { covered.iter().copied().collect() };
+        peer.settle().await;
+        let (dtx, drx) = oneshot::channel();
+        tx.send(CmdB::DetachResume(dtx)).await.map_err(|_| "app gone".to_string())?;
+        let d = peer.wait_for("detach").await?;
+        let closed = as_bool(&d.field(1)).unwrap_or(false);
+        peer.send_frame(my_ch, &Peer::detach_body(ph, closed, None), &[]).await?;
+        match tokio::time::timeout(std::time::Duration::from_secs(10), drx).await {
+            Ok(Ok(Ok(()))) => {}
+            Ok(Ok(Err(e))) => return Err(format!("final detach: {e}")),
+            _ => return Err("final detach did not complete although the peer answered it".into()),
+        }
+        let a = peer.wait_for("attach").await.map_err(|e| format!("resume: no attach was sent: {e}"))?;
+        // attach.unsettled (field 7): map delivery-tag -> state
+        if std::env::var("VERIF_DEBUG").is_ok() { eprintln!("resume attach fields: {:?}", a.fields()); }
+        let mut still: Vec<u32> = Vec::new();
+        if let RValue::Map(m) = a.field(7) {
+            for (k, _) in m {
+                if let RValue::Binary(t) = k {
+                    if t.len() == 4 {
+                        still.push(u32::from_be_bytes([t[0], t[1], t[2], t[3]]));
+                    }
+                }
+            }
+        }
+        for id in &settled {
+            if still.contains(id) {
+                return Err(format!("resume: delivery {id} is settled ({}) but the receiver still lists it in the unsettled map of its resuming attach: {:?}", if c.rcv_second { "the sender's settling disposition arrived" } else { "the receiver settled it with its disposition" }, still));
+            }
+        }
+        info.batch |= !settled.is_empty();
     }
     drop(tx);
     let _ = (&conn, &sess);
